@@ -1,6 +1,8 @@
 package world
 
 import (
+	"fmt"
+
 	pb "github.com/xuperchain/xupercore/bcs/ledger/xledger/xldgpb"
 )
 
@@ -15,8 +17,20 @@ import (
 // tS's change on a2 only; tB2 is on b2 only; tD2 on d2.
 // Bad blocks: cc2 (two coinbases, on a1), dup3 (on a2, repeats tS which is in
 // its ancestor a1), o2 (its parent o1 is never offered: unknown parent).
-func Universe3Way(withBad bool) *Universe {
-	b := NewUniverse("U-3way", DefaultConfig(), RegisterVKV)
+func Universe3Way(withBad bool) *Universe { return Universe3WayW(withBad, 0) }
+
+// Universe3WayW is Universe3Way with an irreversible slide window.
+func Universe3WayW(withBad bool, window int) *Universe {
+	cfg := DefaultConfig()
+	cfg.Window = window
+	name := "U-3way"
+	if !withBad {
+		name += "-honest"
+	}
+	if window > 0 {
+		name = fmt.Sprintf("%s-w%d", name, window)
+	}
+	b := NewUniverse(name, cfg, RegisterVKV)
 	root := b.Root()
 	b.At("g")
 	tS := b.Transfer("tS", "A", []In{{Tx: root, Offset: 0}}, []Out{{To: "B", Amount: "10"}, {To: "A", Amount: "990"}})
@@ -42,5 +56,92 @@ func Universe3Way(withBad bool) *Universe {
 		b.BadBlock("o1", "g", "P", nil, false)
 		b.BadBlock("o2", "o1", "P", nil, false)
 	}
+	return b.Done()
+}
+
+// UniverseKV: one key created, overwritten twice in one block, deleted,
+// re-created; a second key only read; across a fork of depth 2.
+//
+//	g - k1 - k2 - k3 - k4
+//	     \-- j2 - j3
+//
+// Extra (unconfirmed) transactions for submission: pW1, pW2 (two writers of k1
+// at its k1-block version), pR (reader of k1 at that version), pT (plain transfer by B).
+func UniverseKV() *Universe {
+	b := NewUniverse("U-kv", DefaultConfig(), RegisterVKV)
+	root := b.Root()
+	change := func(tx *pb.Transaction) In { return In{Tx: tx, Offset: len(tx.TxOutputs) - 1} }
+	b.At("g")
+	kvA := b.KV("kvA", "A", "put k1 x", []In{{Tx: root, Offset: 0}})
+	b.Block("k1", "M")
+	kvB := b.KV("kvB", "A", "put k1 y", []In{change(kvA)})
+	kvC := b.KV("kvC", "A", "get k1;put k1 z", []In{change(kvB)})
+	kvR := b.KV("kvR", "B", "get k2", []In{{Tx: root, Offset: 1}})
+	b.Block("k2", "M")
+	kvD := b.KV("kvD", "A", "del k1", []In{change(kvC)})
+	b.Block("k3", "P")
+	b.KV("kvE", "A", "put k1 w;put k3 v", []In{change(kvD)})
+	b.Block("k4", "P")
+	b.At("k1")
+	kvF := b.KV("kvF", "A", "put k2 q;get k1", []In{change(kvA)})
+	b.Block("j2", "P")
+	b.KV("kvG", "A", "del k1", []In{change(kvF)})
+	b.Block("j3", "P")
+	// pool candidates built at k1
+	b.At("k1")
+	pW1, _, err := b.W.BuildKVTx("B", "put k1 p1", []In{{Tx: root, Offset: 1}}, "pW1")
+	if err != nil {
+		panic(err)
+	}
+	b.Raw("pW1", pW1, false)
+	pW2, _, err := b.W.BuildKVTx("A", "put k1 p2", []In{change(kvA)}, "pW2")
+	if err != nil {
+		panic(err)
+	}
+	b.Raw("pW2", pW2, false)
+	pR, _, err := b.W.BuildKVTx("B", "get k1", []In{{Tx: root, Offset: 1}}, "pR")
+	if err != nil {
+		panic(err)
+	}
+	b.Raw("pR", pR, false)
+	_ = kvR
+	return b.Done()
+}
+
+// UniverseAmt: zero-value output, frozen outputs (future height and -1),
+// amounts beyond 64 bit, leading-zero amount bytes in an output, multi-input
+// multi-output, fee outputs.
+//
+//	g - x1 - x2 - x3
+//	 \-- y1 - y2
+func UniverseAmt() *Universe {
+	cfg := DefaultConfig()
+	cfg.Quotas = map[string]string{"A": "18446744073709552616", "B": "500"} // 2^64+1000
+	b := NewUniverse("U-amt", cfg, RegisterVKV)
+	root := b.Root()
+	b.At("g")
+	// zero-value output + big change + fee
+	tZ := b.Transfer("tZ", "A", []In{{Tx: root, Offset: 0}}, []Out{{To: "B", Amount: "0"}, {To: "C", Amount: "18446744073709551619"}, {To: "A", Amount: "990"}, {To: "$", Amount: "7"}})
+	// frozen outputs: until height 2, and forever; leading-zero amount bytes
+	tF := b.Transfer("tF", "B", []In{{Tx: root, Offset: 1}}, []Out{{To: "C", Amount: "100", Frozen: 2}, {To: "D", Amount: "50", Frozen: -1}, {To: "B", Raw: []byte{0, 5}}, {To: "B", Amount: "345"}})
+	b.Block("x1", "M")
+	// multi-input multi-output: spends leading-zero output and plain one
+	tM := b.Transfer("tM", "B", []In{{Tx: tF, Offset: 2}, {Tx: tF, Offset: 3}}, []Out{{To: "A", Amount: "300"}, {To: "B", Amount: "49"}, {To: "$", Amount: "1"}})
+	b.Block("x2", "M")
+	// spends the output frozen until height 2 (ledger height is 2 now) and the big one
+	b.Transfer("tU", "C", []In{{Tx: tF, Offset: 0}, {Tx: tZ, Offset: 1}}, []Out{{To: "A", Amount: "18446744073709551719"}})
+	b.Block("x3", "P")
+	b.At("g")
+	b.Resubmit("tF")
+	b.Block("y1", "P")
+	b.Resubmit("tM")
+	b.Block("y2", "P")
+	// refusable candidates
+	b.At("x1")
+	b.Raw("sFrozen", BuildTx(TxSpec{Initiator: "D", Ins: []In{{Tx: tF, Offset: 1}}, Outs: []Out{{To: "A", Amount: "50"}}, Nonce: "sFrozen"}), true)
+	b.Raw("sUnbalanced", BuildTx(TxSpec{Initiator: "A", Ins: []In{{Tx: tZ, Offset: 2}}, Outs: []Out{{To: "B", Amount: "991"}}, Nonce: "sUnbalanced"}), true)
+	b.Raw("sA", BuildTx(TxSpec{Initiator: "A", Ins: []In{{Tx: tZ, Offset: 2}}, Outs: []Out{{To: "B", Amount: "980"}, {To: "$", Amount: "10"}}, Nonce: "sA"}), false)
+	b.Raw("sA2", BuildTx(TxSpec{Initiator: "A", Ins: []In{{Tx: tZ, Offset: 2}}, Outs: []Out{{To: "D", Amount: "990"}}, Nonce: "sA2"}), false)
+	_ = tM
 	return b.Done()
 }
